@@ -53,33 +53,26 @@ def uses_pow(src):
 
 # root cause per program of the misc family (hand-written while triaging; programs not listed cluster by name)
 MISC_CAUSE = {
-    "objlit-proto-literal": "a computed ['__proto__'] key in an object literal sets the prototype instead of defining a property",
-    "objlit-super": "super.method() inside an object literal method is a SyntaxError",
+        "objlit-super": "super.method() inside an object literal method is a SyntaxError",
     "object-tostring-tags": "the arguments object is a plain array ([object Array], Array.isArray true, no callee, no aliasing)",
     "arguments-object": "the arguments object is a plain array ([object Array], Array.isArray true, no callee, no aliasing)",
-    "symbol-coercion-errors": "implicit conversion of a symbol to string (s + '', [s].join()) does not throw; Object(sym) == sym is false",
+    "symbol-coercion-errors": "[sym].join() does not throw; Object(sym) == sym is false",
     "string-iterator-and-entries": "Array.prototype.keys()/entries() return arrays (pinned by the repository's tests); string iterator objects lack [Symbol.iterator]",
     "tagged-template": "tagged templates: no raw strings (strings.raw holds cooked text), the strings array is neither frozen nor cached per site; String.raw is missing",
-    "for-in-semantics": "for-in visits a key deleted earlier in the same loop",
-    "default-params-scope": "default parameter initialisers share the scope of the function body (a closure in a default sees the body's var)",
-    "call-apply-bind": "an instance made by new on a bound constructor does not get the target's prototype",
-    "function-props": "function metadata: no name for functions under computed keys, methods own a prototype object, getter names lack the 'get ' prefix",
-    "instanceof-edge": "instanceof with a right-hand side that has no prototype (arrow function) answers false instead of throwing",
-    "new-semantics": "new on an arrow function, a method or a built-in function that is not a constructor does not throw",
+        "default-params-scope": "default parameter initialisers share the scope of the function body (a closure in a default sees the body's var)",
+        "function-props": "function metadata: no name for functions under computed keys, methods own a prototype object, getter names lack the 'get ' prefix",
+        "new-semantics": "new on a method or a built-in function that is not a constructor does not throw",
     "array-like-generic-methods": "Array.prototype methods called on array-likes (non-arrays) throw",
     "array-holes": "array holes are stored as undefined (dense array representation)",
     "array-species-length": "array holes are stored as undefined (dense array representation); an element far beyond the dense limit does not move length",
-    "string-methods-misc": "split() with a capturing regular expression drops the captures; string length counts characters, not UTF-16 units",
-    "regexp-features": "regular expression syntax accepted by the reference engine is rejected (SyntaxError)",
-    "date-basics": "Date: setUTC* setters and getTimezoneOffset are missing, time values beyond 8.64e15 are not clipped",
+    "string-methods-misc": "strings are not sequences of UTF-16 code units (astral characters / surrogate escapes)",
+        "date-basics": "Date.parse does not roll an out-of-range day over (2020-02-30 is invalid instead of March 1)",
     "json-misc": "strings are not sequences of UTF-16 code units (astral characters / surrogate escapes)",
     "map-set-semantics": "WeakMap and WeakSet are not defined",
     "proxy-traps": "Proxy: ownKeys/getOwnPropertyDescriptor traps are not consulted by Object.keys, JSON.stringify of a proxy gives null",
-    "reflect-api": "Reflect.construct with a newTarget argument throws",
+    "reflect-api": "Reflect.defineProperty answers true where the definition is refused",
     "typeof-and-tdz": "temporal dead zone inside function bodies is not enforced",
-    "global-functions": "Function.prototype.toString does not return source text",
-    "getter-on-class-vs-instance-shadow": "class fields are assigned (Set) rather than defined: a field shadowing an inherited accessor throws",
-    "octal-and-strict-syntax-errors": "early errors not reported: duplicate labels, const without initialiser, var/let clash in for-of body, duplicate constructor, function declaration as if-body, call on an arrow body, super outside a method, rest element not last",
+            "octal-and-strict-syntax-errors": "early errors not reported: duplicate labels, var/let clash in a for-of body, function declaration as if-body, call on an arrow body, super outside a method",
     "iterator-close-protocol": "iterator close protocol",
 }
 
